@@ -537,6 +537,8 @@ impl Exch {
         let r = f.write(&input, &mut buf);
         let (c, p) = match r {
             Ok(x) => x,
+            // a further empty write after the end of a chunked body may be refused (it "emits nothing" either way)
+            Err(_) if self.body_done && i == 0 && chunked => return Ok(()),
             Err(e) => return Err((key(self, "error"), format!("write({} bytes, {}-byte buffer) at body offset {} failed: {:?}", i, out, self.body_in, e))),
         };
         if c > i || p > out {
